@@ -263,3 +263,80 @@ def dispatch (o : Opts) (e : Env) (s : State) : State × Nat :=
           | _ => (s, 0)
 
 end KsiVerif.Tcp
+
+/-! ## blocking client (net_tcp.c `readResponse`, io.c `KSI_IO_readSocket`, fast_tlv.c `readData`) -/
+namespace KsiVerif.Tcp
+open KsiVerif
+
+inductive BRecv where
+  | data (k : Nat)
+  | closed
+  | timeout
+  | error
+deriving Repr
+
+/-- `KSI_IO_readSocket(fd, buf, n, &count)`: loops on `recv` until `n` bytes have arrived -/
+def readSock : Nat → Nat → List BRecv → Bytes → Except Nat (Bytes × List BRecv × Bytes)
+  | 0, _, script, stream => .ok ([], script, stream)
+  | _, 0, script, stream => .ok ([], script, stream)
+  | fuel + 1, n + 1, script, stream =>
+    let (item, rest) := match script with
+      | [] => (BRecv.data (n + 1), [])
+      | x :: r => (x, r)
+    match item with
+    | .closed => .error St.NETWORK_ERROR
+    | .timeout => .error St.NETWORK_RECIEVE_TIMEOUT
+    | .error => .error St.IO_ERROR
+    | .data k =>
+      let c := min (min (max k 1) (n + 1)) stream.length
+      if c = 0 then .error St.NETWORK_ERROR          -- nothing more to come: orderly close
+      else match readSock fuel (n + 1 - c) rest (stream.drop c) with
+        | .error e => .error e
+        | .ok (more, r, s) => .ok (stream.take c ++ more, r, s)
+
+/-- `KSI_FTLV_socketRead` into a buffer large enough for any element -/
+def readElement (script : List BRecv) (stream : Bytes) : Except Nat Bytes :=
+  match readSock 3 2 script stream with
+  | .error e => .error e
+  | .ok (h2, script, stream) =>
+    let more : Except Nat (Bytes × List BRecv × Bytes) :=
+      if (h2.headD 0).toNat ≥ 128 then readSock 3 2 script stream else .ok ([], script, stream)
+    match more with
+    | .error e => .error e
+    | .ok (h4, script, stream) =>
+      match Tlv.parseHdr (h2 ++ h4) with
+      | .error e => .error e
+      | .ok hd =>
+        if hd.datLen = 0 then .ok (h2 ++ h4)
+        else match readSock (hd.datLen + 1) hd.datLen script stream with
+          | .error e => .error e
+          | .ok (d, _, _) => .ok (h2 ++ h4 ++ d)
+
+/-- the send loop of `readResponse`: returns what reached the wire and whether it failed -/
+def blockingSend : Nat → Bytes → List SendRes → Bytes × Bool
+  | 0, _, _ => ([], true)
+  | _, [], _ => ([], true)
+  | fuel + 1, req, script =>
+    let (item, rest) := match script with
+      | [] => (SendRes.accept req.length, [])
+      | x :: r => (x, r)
+    match item with
+    | .error => ([], false)
+    | .wouldBlock => ([], false)
+    | .accept k =>
+      let c := min (max k 1) req.length
+      let (w, ok) := blockingSend fuel (req.drop c) rest
+      (req.take c ++ w, ok)
+
+/-- `readResponse(handle)`: status, bytes written, response -/
+def blockingExchange (req : Bytes) (sends : List SendRes) (stream : Bytes) (recvs : List BRecv) (connectOk : Bool) :
+    Nat × Bytes × Option Bytes :=
+  if !connectOk then (St.NETWORK_ERROR, [], none)
+  else
+    let (wire, ok) := blockingSend (req.length + 1) req sends
+    if !ok then (St.NETWORK_ERROR, wire, none)
+    else match readElement recvs stream with
+      | .error e => (e, wire, none)
+      | .ok r => (0, wire, some r)
+
+end KsiVerif.Tcp
